@@ -187,6 +187,7 @@ type Worker struct {
 	opaqueStr    map[int]Value
 	smtReads     map[string][]*Term
 	observes     []obsRec
+	hashApps     map[string][]hashApp
 	domSlotCache map[*ssa.BasicBlock][]int
 	lazyNext     bool
 	LazyBranches int
@@ -856,6 +857,10 @@ func (w *Worker) mergeValue(c *Term, a, b Value) (Value, bool) {
 		}
 	case *OpaqueV:
 		if y, ok := b.(*OpaqueV); ok && x == y {
+			return x, true
+		}
+	case *HashData:
+		if y, ok := b.(*HashData); ok && x == y {
 			return x, true
 		}
 	case *SMTBuf:
